@@ -540,6 +540,8 @@ def run(ctx):
     # ---- G13 extern value without address (C15-D2)
     am = [f for f in P.fns.values() if f.id.endswith('SemanticState::add_module')]
     if am:
+        item_registration(ctx, am[0])
+    if am:
         cl = [am[0]] + P.closures_of(am[0])
         # the per-value conversion may be a function of its own, called from add_module (directly or from its closures)
         for g_ in list(cl):
@@ -597,6 +599,57 @@ def run(ctx):
 
 
 # appended: Module::new (backend blocks, doc) ------------------------------------------------------
+def item_registration(ctx, am):
+    """what add_module registers for the declarations of a module: every definition as an Unresolved, Defined item under
+    <module path>::<its name> with its own visibility and its own (whole) definition; every extern type as a Resolved, Extern, public
+    item under <module path>::<its name>"""
+    P = ctx.prog
+    regs = []
+    for c in am.calls(lambda r: r['path'] and r['path'].endswith('SemanticState::add_item')):
+        e = strip(ctor_norm(P, expand(am, am.expr_of_operand(c['term']['args'][1]))))
+        if e[0] == 'agg' and e[1].endswith('ItemDefinition'):
+            regs.append((c, dict(e[2])))
+    defs_ = [(c, d) for c, d in regs if strip(d.get('state', ('x',)))[0] == 'agg' and strip(d['state'])[1].endswith('ItemState::Unresolved')]
+    exts_ = [(c, d) for c, d in regs if strip(d.get('state', ('x',)))[0] == 'agg' and strip(d['state'])[1].endswith('ItemState::Resolved')]
+    okd, detd = False, 'expected one registration of Unresolved definitions, found %d' % len(defs_)
+    if len(defs_) == 1:
+        c, d = defs_[0]
+        elem = None
+        for y in walk(strip(d['state'])):
+            if isinstance(y, tuple) and y and y[0] == 'payload' and y[2] == 'Some' and is_call(strip(y[1]), 'Iterator::next'):
+                elem = strip(y)
+        st = strip(strip(d['state'])[2][0][1]) if strip(d['state'])[2] else ('x',)
+        whole = elem is not None and st == elem           # clone(definition) of the loop element itself
+        vis = strip(d.get('visibility', ('x',)))
+        okv = elem is not None and vis == ('field', elem, 'visibility')
+        pth = strip(d.get('path', ('x',)))
+        okp = is_call(pth, 'ItemPath::join') and len(pth[2]) == 2 and strip(pth[2][0])[0] == 'arg' and elem is not None and \
+            any(isinstance(y, tuple) and y and y[0] == 'field' and y[2] == 'name' and strip(y[1]) == elem for y in walk(pth[2][1]))
+        cat = strip(d.get('category', ('x',)))
+        okc = cat[0] == 'agg' and cat[1].endswith('ItemCategory::Defined')
+        L = innermost_loop(am, c['block'])
+        from r_panic import cycle_without
+        every = bool(L) and not cycle_without(am, L[1], L[0], {c['block']})
+        sty, src = loop_source(am, L) if L else (None, None)
+        plain = sty is not None and re.match(r"^std::slice::Iter<'_, grammar::ItemDefinition>$", sty) is not None
+        okd = bool(whole and okv and okp and okc and every and plain)
+        detd = 'state %s visibility %s path %s category %s every %s over %s' % (whole, okv, okp, okc, every, sty)
+    ctx.ob(['C14', 'C17', 'C11', 'C19'], 'R-SLP', 'AM|definition-registration', okd,
+           'every definition of a module is registered as Unresolved(<the whole definition>), Defined, with its own visibility, under <module path>::<its name>: %s' % detd, loc(am.span))
+    oke = len(exts_) == 1
+    dete = 'expected one registration of extern types, found %d' % len(exts_)
+    if oke:
+        c, d = exts_[0]
+        cat = strip(d.get('category', ('x',)))
+        vis = strip(d.get('visibility', ('x',)))
+        pth = strip(d.get('path', ('x',)))
+        okp = is_call(pth, 'ItemPath::join') and len(pth[2]) == 2 and strip(pth[2][0])[0] == 'arg'
+        oke = cat[0] == 'agg' and cat[1].endswith('ItemCategory::Extern') and vis[0] == 'agg' and vis[1].endswith('Visibility::Public') and okp
+        dete = 'category %s visibility %s path %s' % (show(cat)[:30], show(vis)[:30], okp)
+    ctx.ob(['C14', 'C13', 'C17'], 'R-SLP', 'AM|extern-type-registration', oke,
+           'an extern type is registered as a Resolved, Extern (never emitted), public item under <module path>::<its name>: %s' % dete, loc(am.span))
+
+
 def add_file_key(ctx):
     """C14-D2 / C19: the module a file becomes is named by the file's own path relative to the input directory, nothing else"""
     P = ctx.prog
